@@ -236,6 +236,7 @@ class Impl:
         return "samples=[%s] init=[%s] metrics=[%s]%s" % (sm, ini, me, extra)
     def op_spec_pg(self, f, f2, f3, *a): return self._spec(f, f2, f3)
     def op_spec_gfsc(self, f, *a): return self._spec(f)
+    def op_spec_gfc(self, f, *a): return self._spec(f)
     def op_spec_gdl1(self, f, *a): return self._spec(f)
     def op_spec_gdc(self, f, *a): return self._spec(f)
     def op_spec_subg(self, f, *a): return self._spec(f)
@@ -927,6 +928,7 @@ def example_program(c):
     if c["func"] == "wc_gradient_descent_contraction": spec = ["spec.gdc f0 %s %d" % (fr(c["args"]["gamma"]), c["args"]["n"])]
     if c["func"] == "wc_proximal_gradient": spec = ["spec.pg f0 f1 f2 %s %d" % (fr(c["args"]["gamma"]), c["args"]["n"])]
     if c["func"] == "wc_gradient_flow_strongly_convex": spec = ["spec.gfsc f0"]
+    if c["func"] == "wc_gradient_flow_convex": spec = ["spec.gfc f0 %s" % fr(c["args"]["t"])]
     if c["func"] == "wc_gradient_descent_lyapunov_1": spec = ["spec.gdl1 f0 %s %s %d" % (fr(c["args"]["L"]), fr(c["args"]["gamma"]), c["args"]["n"])]
     if c["func"] == "wc_subgradient_method": spec = ["spec.subg f0 %s %d" % (fr(c["args"]["gamma"]), c["args"]["n"])]
     return r["lines"] + spec + [head, "solve.collect", "dump.sent", "expect.sent " + hashlib.sha1(r["sent"].encode()).hexdigest()[:20], "dump.counters"]
@@ -946,6 +948,9 @@ def gen_methods(seed):
         L = rnd.choice([1, 2, 0.5, 4, 1.7])
         c = dict(module="PEPit.examples.potential_functions.gradient_descent_lyapunov_1", func="wc_gradient_descent_lyapunov_1",
                  args=dict(L=L, gamma=rnd.choice([1 / L, 1 / L, 0.5 / L, 1]), n=rnd.randint(0, 12)))
+    elif seed % 16 == 15:
+        c = dict(module="PEPit.examples.continuous_time_models.gradient_flow_convex", func="wc_gradient_flow_convex",
+                 args=dict(t=rnd.choice([2.5, 0, 1, 0.3, 10, 7])))
     elif seed % 8 == 7:
         c = dict(module="PEPit.examples.continuous_time_models.gradient_flow_strongly_convex", func="wc_gradient_flow_strongly_convex",
                  args=dict(mu=rnd.choice([0.1, 1, 0.5, 2.5, 0.01])))
